@@ -13,7 +13,7 @@ import json, os, re, shutil, time
 from util import *
 
 KANI_SRC = os.path.join(VERIF, 'engines', 'kani')
-MEM_KB = int(os.environ.get('VERIF_KANI_MEM_KB', str(16 * 1000 * 1000)))
+MEM_KB = int(os.environ.get('VERIF_KANI_MEM_KB', str(32 * 1000 * 1000)))
 
 
 class HarnessResult:
